@@ -352,19 +352,20 @@ fn volume(cell: &ConvexCell<WithoutFaces>) -> f64 {
 }
 
 pub fn one_c18(prop: &str, c: &Case, rep: &mut Report) {
-    if c.dim != 3 {
+    if c.dim < 2 {
         return;
     }
     let (a, w) = c.norm_box();
     let n = c.n();
     let s = scales(c);
-    let cb = CellBuilder::new(&c.pts, a, w, dimn(3), c.periodic);
+    let cb = CellBuilder::new(&c.pts, a, w, dimn(c.dim), c.periodic);
     let mut r = Rng::stream("C18", &[c.hash()]);
     let ncell = 3.min(n);
     let mut nontrivial = false;
-    for _ in 0..ncell {
-        let i = r.below(n);
-        let seq = match guarded(|| verif::nn_sequence(&c.pts, i, w, dimn(3), c.periodic, 2000)) {
+    for t in 0..ncell {
+        // the centre of a star (generator 0) is the cell with the many planes: always replay it
+        let i = if t == 0 && c.family == "star" { 0 } else { r.below(n) };
+        let seq = match guarded(|| verif::nn_sequence(&c.pts, i, w, dimn(c.dim), c.periodic, 40000)) {
             Ok(s) => s,
             Err(p) => {
                 rep.violations.push(panic_violation(prop, c, &p));
@@ -453,7 +454,7 @@ pub fn one_c18(prop: &str, c: &Case, rep: &mut Report) {
                 }
                 rep.count("permuted_clips", 1);
                 // storage history: every fourth variant has been through with_faces() -> discard_faces() first
-                let round_trip = rot == 2;
+                let round_trip = rot == 2 && c.dim == 3;
                 if round_trip {
                     rep.count("permuted_clips_after_face_round_trip", 1);
                 }
@@ -507,13 +508,13 @@ pub fn one_c18(prop: &str, c: &Case, rep: &mut Report) {
 pub fn c18(a: &Args, rep: &mut Report) {
     rep.rule = "cases = seeded 3D inputs (uniform, exact lattices with large tie sets, clusters; periodic or not); for 3 cells per input the production clip sequence is replayed step by step with the real clip primitive; before every clip that removes vertices the vertex array is permuted (ALL orders of the removed set for <= 5 removed vertices, 8-40 random full permutations otherwise) and the plane triples rotated, and the canonical result / volume / closedness compared; distinct = distinct input hash; non-trivial = at least one clip removing >= 2 vertices was permuted".into();
     rep.assumptions = vec!["removed sets of more than 5 vertices are sampled, not enumerated".into()];
-    let szs: Vec<usize> = if a.tier == "thorough" { vec![2, 3, 5, 8, 13, 27, 64, 125, 300] } else { vec![2, 3, 5, 8, 13, 27, 64, 125] };
+    let szs: Vec<usize> = if a.tier == "thorough" { vec![2, 3, 5, 8, 13, 27, 64, 125, 300, 1000] } else { vec![2, 3, 5, 8, 13, 27, 64, 125, 300] };
     let n = ncases(a, 8000, 60000);
     run_parallel(rep, n, budget(a, 100., 900.), |k, rep| {
         let o = GenOpts {
             sizes: &szs,
-            dims: &[3],
-            families: &["uniform", "lattice", "blattice", "mildcluster", "lattice", "tiny"],
+            dims: &[3, 3, 3, 2],
+            families: &["uniform", "lattice", "blattice", "mildcluster", "lattice", "tiny", "clattice", "star", "star", "rows", "gradient", "coplanar"],
             ..Default::default()
         };
         let c = gen_case("C18", &a.tier, a.seed, k, &o);
